@@ -3,8 +3,10 @@ package rpcx
 import (
 	"context"
 	"fmt"
+	"math/rand"
 	"net"
 	"sync"
+	"sync/atomic"
 	"testing"
 	"time"
 
@@ -314,9 +316,11 @@ func c42Run(c *c42Case, wait time.Duration, record func(p *c42Pending)) (unresol
 
 func TestC42(t *testing.T) {
 	rec := ev.New(t, "C42")
-	rec.Rule("rapid-generated programmes over a fresh StreamRouter (chord transport, tunnel transport or both): registrations of virtual-node handlers (stream type, node id), node-wide chord handlers (type) and tunnel handlers (type) interleaved with incoming chord / tunnel streams (type, target id) fed through fake transports' AcceptStream; types from {0..5,-1,2^20}, ids from {0,1,2,3,2^32,2^32+1,2^48-1,2^63+1}; several streams in flight between registrations. Oracle (reference table kept by the harness): chord stream -> handler of (type,id) if registered, else node-wide handler of type, else Close; tunnel stream -> tunnel handler of type, else Close; exactly one of these happens once. Non-trivial: a competing registration exists for the stream (another handler of the same type in any table / another vnode), or the stream falls back to the node-wide handler, or it is closed although some handlers are registered. Each evaluation is one incoming stream; distinct = distinct (programme prefix, stream).")
+	rec.Rule("rapid-generated programmes over a fresh StreamRouter (chord transport, tunnel transport or both): registrations of virtual-node handlers (stream type, node id), node-wide chord handlers (type) and tunnel handlers (type) interleaved with incoming chord / tunnel streams (type, target id) fed through fake transports' AcceptStream; types from {0..5,-1,2^20}, ids from {0,1,2,3,2^32,2^32+1,2^48-1,2^63+1}; several streams in flight between registrations. Oracle (reference table kept by the harness): chord stream -> handler of (type,id) if registered, else node-wide handler of type, else Close; tunnel stream -> tunnel handler of type, else Close; exactly one of these happens once. Non-trivial: a competing registration exists for the stream (another handler of the same type in any table / another vnode), or the stream falls back to the node-wide handler, or it is closed although some handlers are registered. Concurrent-registration dimension (class concurrent-registration): 2..5 virtual nodes register their handler for one stream type on a fresh router at the same instant (spin barrier), 4000 (thorough 60000) rounds; afterwards the stream of every node must reach its own handler. Each evaluation is one incoming stream; distinct = distinct (programme prefix, stream).")
 	rec.Assume("each (table, type, id) key is registered at most once per programme (the statement does not define which of two handlers for one key wins)",
 		"a stream that is neither handled nor closed within 3 s triggers a re-run of the programme on a fresh router with a 20 s budget; only a reproduced silence is reported, otherwise the case is inconclusive")
+
+	c42ConcurrentRegistration(t, rec, ev.Pick(4000, 60000))
 
 	ev.RapidCheck(t, 300, 10000, func(rt *rapid.T) {
 		c := genC42Case().Draw(rt, "case")
@@ -351,4 +355,76 @@ func TestC42(t *testing.T) {
 			rec.Fail(rt, sig, c, "%s", msg)
 		}
 	})
+}
+
+// c42ConcurrentRegistration: virtual nodes attach their handlers to a fresh router at the same
+// time (spin barrier), for the same stream type; afterwards a stream for every (type, node) must
+// reach exactly the handler registered for it.
+func c42ConcurrentRegistration(t *testing.T, rec *ev.Recorder, rounds int) {
+	rng := rand.New(rand.NewSource(ev.ShardSeed()))
+	deadline := time.Now().Add(3 * time.Minute)
+	for r := 0; r < rounds && time.Now().Before(deadline); r++ {
+		k := 2 + rng.Intn(4)
+		kind := c42Kinds[rng.Intn(len(c42Kinds))]
+		ids := append([]uint64(nil), c42IDs...)
+		rng.Shuffle(len(ids), func(i, j int) { ids[i], ids[j] = ids[j], ids[i] })
+		ids = ids[:k]
+		ch := make(chan *transport.StreamDelegate, k)
+		router := transport.NewStreamRouter(zap.NewNop(), &fakeTransport{ch: ch}, nil)
+		ctx, cancel := context.WithCancel(context.Background())
+		router.Accept(ctx)
+		delegateOf := sync.Map{}
+		var ready, wg sync.WaitGroup
+		var start atomic.Bool
+		ready.Add(k)
+		for _, id := range ids {
+			wg.Add(1)
+			go func(id uint64) {
+				defer wg.Done()
+				tag := fmt.Sprintf("handler:virtual/%d/%d", kind, id)
+				h := func(d *transport.StreamDelegate) {
+					if e, ok := delegateOf.Load(d); ok {
+						e.(*streamEvents).record(tag)
+					}
+				}
+				ready.Done()
+				for !start.Load() {
+				}
+				router.HandleChord(protocol.Stream_Type(kind), &protocol.Node{Id: id, Address: "vnode"}, h)
+			}(id)
+		}
+		ready.Wait()
+		start.Store(true)
+		wg.Wait()
+		evs := make([]*streamEvents, k)
+		for i, id := range ids {
+			evs[i] = newStreamEvents()
+			d := &transport.StreamDelegate{Conn: &trackedConn{ev: evs[i]}, Identity: &protocol.Node{Id: id, Address: "peer"}, Kind: protocol.Stream_Type(kind)}
+			delegateOf.Store(d, evs[i])
+			ch <- d
+		}
+		doc := map[string]any{"round": r, "stream_type": kind, "node_ids_registered_concurrently": ids}
+		for i, id := range ids {
+			select {
+			case <-evs[i].first:
+			case <-time.After(20 * time.Second):
+				cancel()
+				rec.Inconclusive("concurrent-registration: stream unresolved for 20 s")
+				return
+			}
+			got := evs[i].snapshot()
+			want := fmt.Sprintf("handler:virtual/%d/%d", kind, id)
+			rec.Case(true, fmt.Sprintf("concurrent-reg|%d|%v|%d", kind, ids, id), func() any { return doc }, "concurrent-registration", fmt.Sprintf("registrants:%d", k))
+			if len(got) != 1 || got[0] != want {
+				cancel()
+				sig := "stream-given-to-the-wrong-handler"
+				if len(got) == 1 && got[0] == "closed" {
+					sig = "matching-stream-closed-instead-of-handled"
+				}
+				doc["observed"] = got
+				rec.Fail(t, sig, doc, "%d virtual nodes registered their handler for stream type %d at the same time; the stream for node %d then saw %v, expected [%s]", k, kind, id, got, want)
+			}
+		}
+		cancel()
+	}
 }
